@@ -29,6 +29,7 @@ func (d *Driver) read() {
 	patterns := getNetconfPatterns()
 
 	for {
+		verifhook.Point("nc.read.loop!")
 		select {
 		case <-d.done:
 			return
